@@ -22,7 +22,8 @@ MsInit(cfg) == [cfg |-> cfg,
                 sent |-> EmptyFn,     \* seq -> [id, sending] of new application messages seen on the wire
                 rr |-> FALSE,         \* C19: a ResendRequest has been seen on this connection
                 logged |-> FALSE,     \* logon exchange completed
-                lastSent |-> -1, lastRecv |-> -1, trPending |-> FALSE, trAt |-> -1]   \* C22
+                lastSent |-> -1, lastRecv |-> -1, trPending |-> FALSE, trAt |-> -1,   \* C22
+                psent |-> {}, deliv |-> {}, taint |-> {}]                              \* C20 / C21
 
 Prop(m) == m.cfg.prop
 
@@ -238,6 +239,43 @@ C22Step(m, e) ==
           ELSE [ok |-> TRUE, why |-> "", sig |-> "", m |-> m]
        ELSE [ok |-> TRUE, why |-> "", sig |-> "", m |-> m]
 
+\* ---- C20 (gap recovery with a conformant counterparty) ------------------------------------------------
+\* The driver is the counterparty: "PeerSent" lines record every message it sent (also those lost while
+\* disconnected), "End" closes a history after the counterparty has answered every ResendRequest.
+\* Locally recognisable deviation events *taint* the execution; the taint appears in the signature of a
+\* rejection so that a known finding is matched only through the defect it names.
+DevLabels == <<"incr_on_out_of_seq", "logon_gap_terminated", "high_outside_continuous_terminated", "seqreset_below_expected_terminated">>
+LabelsOf(e) ==
+    IF ~(e.e = "Recv" /\ e.in # <<>> /\ e.in[1].valid /\ ~e.pre.shutdown) THEN {}
+    ELSE LET i == e.in[1] IN
+         (IF i.type # "4" /\ i.seq # e.pre.nr /\ e.post.nr = e.pre.nr + 1 THEN {"incr_on_out_of_seq"} ELSE {})
+         \cup (IF i.type = "A" /\ i.seq > e.pre.nr /\ e.post.shutdown THEN {"logon_gap_terminated"} ELSE {})
+         \cup (IF i.type \notin {"A", "4"} /\ i.seq > e.pre.nr /\ e.pre.st # 1 /\ e.post.shutdown
+               THEN {"high_outside_continuous_terminated"} ELSE {})
+         \cup (IF i.type = "4" /\ i.newseq < e.pre.nr /\ e.post.shutdown THEN {"seqreset_below_expected_terminated"} ELSE {})
+RECURSIVE JoinLabels(_, _)
+JoinLabels(S, i) == IF i > Len(DevLabels) THEN ""
+                    ELSE (IF DevLabels[i] \in S THEN "+" \o DevLabels[i] ELSE "") \o JoinLabels(S, i + 1)
+TaintSig(S) == IF S = {} THEN "clean" ELSE JoinLabels(S, 1)
+
+C20Step(m, e) ==
+    IF e.e = "PeerSent" THEN
+        [ok |-> TRUE, why |-> "", sig |-> "", m |-> IF e.kind = "app" THEN [m EXCEPT !.psent = @ \cup {e.id}] ELSE m]
+    ELSE IF e.e = "End" THEN
+        LET missing == m.psent \ m.deliv IN
+        IF e.alive /\ missing # {} THEN [ok |-> FALSE, why |-> "application_message_never_delivered",
+                                         sig |-> "not_all_delivered:after:" \o TaintSig(m.taint), m |-> m]
+        ELSE IF e.alive /\ e.nr # e.peer_next THEN [ok |-> FALSE, why |-> "expected_number_differs_from_counterparty_next",
+                                                   sig |-> "expected_mismatch:after:" \o TaintSig(m.taint), m |-> m]
+        ELSE [ok |-> TRUE, why |-> "", sig |-> "", m |-> m]
+    ELSE IF ~Has(e, "post") THEN [ok |-> TRUE, why |-> "", sig |-> "", m |-> m]
+    ELSE LET t2 == m.taint \cup LabelsOf(e)
+             m2 == [m EXCEPT !.taint = t2, !.deliv = @ \cup {e.delivered[k].id : k \in DOMAIN e.delivered}]
+         IN IF e.post.shutdown /\ ~e.pre.shutdown /\ e.e \in {"Recv", "Start"}
+            THEN [ok |-> FALSE, why |-> "session_terminated_with_conformant_counterparty",
+                  sig |-> "terminated:after:" \o TaintSig(t2), m |-> m2]
+            ELSE [ok |-> TRUE, why |-> "", sig |-> "", m |-> m2]
+
 \* ---- bookkeeping common to all properties ---------------------------------------------------------
 RECURSIVE AddSent(_, _, _)
 AddSent(sent, out, i) ==
@@ -269,6 +307,7 @@ MonStep(m, e) ==
                     [] Prop(m) = "C17" -> C17Step(m, e)
                     [] Prop(m) = "C18" -> C18Step(m, e)
                     [] Prop(m) = "C19" -> C19Step(m, e)
+                    [] Prop(m) = "C20" -> C20Step(m, e)
                     [] Prop(m) = "C22" -> C22Step(m, e)
                     [] Prop(m) = "C23" -> C23Step(m, e)
                     [] OTHER -> [ok |-> TRUE, why |-> "", sig |-> "", m |-> m]
